@@ -96,6 +96,12 @@ bool ops_module(Ctx &c, Toks const &t, std::string const &rest)
     p->setup();
     return true;
   }
+  if (op == "m.chdir") {        // m.chdir <dir>: create the directory and make it the working directory (walker files are named <cwd>/<prefix>...)
+    // a fresh directory every time (scratch directories only): files left by an earlier run would be read as another walker's
+    std::string const cmd = (t[1].find("/.cache/") != std::string::npos ? "rm -rf '" + t[1] + "' && " : std::string("")) + "mkdir -p '" + t[1] + "'";
+    if (std::system(cmd.c_str()) != 0 || chdir(t[1].c_str()) != 0) { c.out("rc", itok(1)); return true; }
+    return true;
+  }
   if (op == "m.callback") {     // m.callback <script command> ; <script command> ... : what the force callback runs at every step
     p->callback_cmds.clear();
     std::vector<std::string> cur;
